@@ -1288,6 +1288,154 @@ def smerge_oracle(line, g):
 
 
 # ------------------------------------------------------------------------------------------------
+# stream: row scan vs vectorized scan over real tsTable parts; trace: ordered-query phase 1 push vs pull over real sidx
+
+STREAM_BASE = BASE_MS + 6 * 3600 * 1000        # inside one day segment
+
+
+def gen_stream_dataset(rng, idx):
+    """2-4 write batches = memory parts; their time ranges are disjoint (several part groups), touching or overlapping;
+    some series only exist in later (or only in earlier) batches"""
+    nser = rng.choice([2, 3, 4])
+    nb = rng.choice([2, 2, 3, 4])
+    layout = rng.choice(["disjoint", "disjoint", "disjoint", "overlap", "mixed"])
+    eid = 1
+    batches = []
+    start = STREAM_BASE + (rng.choice([0, 1]) * DAY_MS if rng.random() < 0.1 else 0)
+    for b in range(nb):
+        if layout == "disjoint" or (layout == "mixed" and rng.random() < 0.6):
+            lo = start + b * 10000
+        else:
+            lo = start + b * 3
+        present = [k for k in range(1, nser + 1) if rng.random() < 0.6]
+        if b == 0 and rng.random() < 0.6 and len(present) > 1:
+            present = present[:-1] if rng.random() < 0.5 else present[1:]       # a series that only starts later
+        if not present:
+            present = [rng.randrange(1, nser + 1)]
+        rows = []
+        for k in present:
+            for j in range(rng.choice([1, 2, 3, 5])):
+                ts = lo + rng.choice([0, 1, 2, 3, 5, 8, 13, 100, 999])
+                rows.append([k, ts, eid, hx(rng.choice(["a", "b", "", "zz"]))])
+                eid += 1
+        rng.shuffle(rows)
+        batches.append(rows)
+    if rng.random() < 0.08:
+        batches.append([[rng.randrange(1, nser + 1), start + DAY_MS + 5, eid, hx("d")]])    # a second segment
+    return {"id": "s%d" % idx, "batches": batches}, nser, start, start + nb * 10000 + DAY_MS
+
+
+def gen_stream_query(rng, nser, lo, hi, batches):
+    allts = sorted(r[1] for b in batches for r in b)
+    r = rng.random()
+    if r < 0.6:
+        qlo, qhi = lo - 5, hi + 5
+    elif r < 0.9:
+        a, b = rng.choice(allts), rng.choice(allts)
+        qlo, qhi = min(a, b), max(a, b)
+    else:
+        qlo, qhi = allts[-1] + 1, allts[-1] + 100
+    k = rng.choice([1, 1, 1, 2, nser])
+    series = rng.sample(range(1, nser + 2), min(k, nser + 1))        # nser+1 = a series that does not exist
+    return {"series": series, "lo": qlo, "hi": qhi, "order": rng.choice(["", "asc", "desc", "desc"]),
+            "max": 2147483647 if rng.random() < 0.85 else rng.choice([1, 2, 3, 5]), "bs": rng.choice([0, 1, 2, 3])}
+
+
+def stream_oracle(line, g):
+    m = re.match(r"^row=(\S*) vec=(\S*)$", g)
+    if not m:
+        return "unparsable driver output " + g[:200]
+    row, vec = m.group(1), m.group(2)
+    if row == vec:
+        return None
+    q = json.loads(line.split(" ")[2])
+    if row.startswith("ERR") or vec.startswith("ERR") or row.startswith("PANIC") or vec.startswith("PANIC"):
+        return "one stream path fails: row=%s vec=%s" % (row[:200], vec[:200])
+    rr = [] if row == "-" else row.split(",")
+    vr = [] if vec == "-" else vec.split(",")
+    if q["max"] < 2147483647:
+        rr = rr[:q["max"]]            # the row limit plan stops after MaxElementSize elements; the vec merge caps there
+    if [x.split(":")[0] for x in rr] != [x.split(":")[0] for x in vr]:
+        return "stream scan: timestamp sequences differ: row=%s vec=%s" % (row[:300], vec[:300])
+    if q["max"] == 2147483647 and sorted(rr) != sorted(vr):
+        return "stream scan: element sets differ: row=%s vec=%s" % (row[:300], vec[:300])
+    # same timestamps, same elements: rows that tie on the timestamp have no order either path promises
+    ks = [x.split(":")[0] for x in rr]
+    if not ties_only(rr, vr, ks, False, q["max"] < 2147483647):
+        return "stream scan: rows differ outside timestamp ties: row=%s vec=%s" % (row[:300], vec[:300])
+    return None
+
+
+def gen_trace_case(rng):
+    desc = rng.random() < 0.5
+    # production couples the two: sidx.QueryRequest.MaxBatchSize = TraceQueryOptions.MaxTraceSize (banyand/trace/query.go);
+    # for the push path it is a chunk size, for the pull path (QuerySync) the distinct-element budget
+    mbs = rng.choice([0, 1, 2, 2, 3, 3, 5, 8])
+    maxtrace = mbs
+    vb = rng.choice([1, 2, 3, 10])
+    ids = ["t%d" % i for i in range(1, 9)]
+    insts = []
+    for _ in range(rng.choice([1, 1, 2, 3])):
+        parts = []
+        for _ in range(rng.choice([0, 1, 1, 2, 3])):
+            n = rng.choice([1, 2, 3, 5, 8])
+            parts.append(",".join("%d:%s" % (rng.choice([1, 2, 3, 4, 5, 7, 9, 20, 21]), rng.choice(ids)) for _ in range(n)))
+        insts.append(";".join(parts) or "-")
+    return "tpar %s %d %d %d %s" % ("desc" if desc else "asc", mbs, maxtrace, vb, "|".join(insts))
+
+
+def trace_oracle(line, g):
+    m = re.match(r"^row=(\S*) vec=(\S*)$", g)
+    if not m:
+        return "unparsable driver output " + g[:200]
+    row, vec = m.group(1), m.group(2)
+    if row == vec:
+        return None
+    f = line.split(" ")
+    maxtrace = int(f[3])
+    if row in ("ERR", "PANIC") or vec in ("ERR", "PANIC") or row.startswith("PANIC") or vec.startswith("PANIC"):
+        return "one trace phase-1 path fails: row=%s vec=%s" % (row[:200], vec[:200])
+    rr = [] if row == "-" else row.split(",")
+    vr = [] if vec == "-" else vec.split(",")
+    if maxtrace > 0:
+        rr, vr = rr[:maxtrace], vr[:maxtrace]       # the push path may finish the batch it is in; the consumer cuts at maxTraceSize
+    kr, kv = [x.split(":")[0] for x in rr], [x.split(":")[0] for x in vr]
+    if kr != kv:
+        return "trace phase 1: key sequences differ: row=%s vec=%s" % (row[:300], vec[:300])
+    if not ties_only(rr, vr, kr, False, maxtrace > 0):
+        return "trace phase 1: trace ids differ outside key ties: row=%s vec=%s" % (row[:300], vec[:300])
+    return None
+
+
+def gen_sresp_case(rng):
+    chunks = []
+    k = 0
+    lens = rng.choice([[2, 1], [3, 3], [1, 2, 1], [2, 2, 2], [4, 1, 1, 3], None])
+    if lens is None:
+        lens = [rng.choice([0, 0, 1, 2, 3, 5]) for _ in range(rng.choice([1, 2, 3, 5, 7]))]
+    for n in lens:
+        if rng.random() < 0.08:
+            chunks.append("nil")
+        if n == 0:
+            chunks.append("-")
+            continue
+        items = []
+        for _ in range(n):
+            k += rng.choice([0, 1, 2])
+            items.append("%d:01%s" % (k, ("t%d" % rng.randrange(40)).encode().hex()))
+        chunks.append(",".join(items))
+    return "sresp " + "|".join(chunks)
+
+
+def sresp_oracle(line, g):
+    want = [x for c in line.split(" ")[1].split("|") if c not in ("nil", "-") for x in c.split(",")]
+    got = [] if g == "-" else g.split(",")
+    if g.startswith("ERR") or got != want:
+        return "SidxResponseIterator is not the concatenation of its chunks: want %s got %s" % (",".join(want)[:200], g[:200])
+    return None
+
+
+# ------------------------------------------------------------------------------------------------
 # the check
 
 KNOWN_IDS = ["F15a", "F15c", "F15c2", "F15d", "F15e", "F15g", "F15h", "F15i", "F15j", "F15m", "F15n",
@@ -1407,6 +1555,13 @@ class C15(vlib.Spec):
             out.append("frame-dec %s x%s" % (codec, raw.hex()))
         out += [gen_dispatch_case(rng) for _ in range(max(300, n * 4))]
         out += [gen_smerge_case(rng) for _ in range(max(200, n * 2))]
+        for i in range(max(60, n)):
+            ds, nser, lo, hi = gen_stream_dataset(rng, i)
+            d = jd(ds)
+            for _ in range(4):
+                out.append("spar %s %s" % (d, jd(gen_stream_query(rng, nser, lo, hi, ds["batches"]))))
+        out += [gen_trace_case(rng) for _ in range(max(150, n * 2))]
+        out += [gen_sresp_case(rng) for _ in range(max(150, n))]
         return out
 
     def kind(self, line):
@@ -1449,6 +1604,11 @@ class C15(vlib.Spec):
         if k == "smerge":
             m = smerge_oracle(line, g)
             return ("violation", m) if m else None
+        if k in ("spar", "tpar", "sresp"):
+            if g.startswith("SETUP-ERR") or g.startswith("bad-op"):
+                return ("violation", "harness could not set the case up: " + g[:200])
+            m = {"spar": stream_oracle, "tpar": trace_oracle, "sresp": sresp_oracle}[k](line, g)
+            return ("violation", m) if m else None
         if k == "dispatch":
             if g.startswith("INCONSISTENT") or g.startswith("accept-") or g.startswith("SETUP") or g.startswith("reject other"):
                 return ("violation", "dispatch contract: " + g[:200])
@@ -1461,7 +1621,7 @@ class C15(vlib.Spec):
 
     def compare(self, line, g, l):
         k = self.kind(line)
-        if k in ("par", "dist", "smerge"):
+        if k in ("par", "dist", "smerge", "spar", "tpar", "sresp"):
             return True
         if g == l:
             return True
@@ -1533,6 +1693,16 @@ def main(tier):
             nt = spec.nontrivial(line, g)
             if nt is not None:
                 R.nontrivial.add(nt)
+            if kd in ("spar", "tpar"):
+                programs += 1
+                mm = re.match(r"^row=(\S*) vec=(\S*)$", g)
+                if mm:
+                    ok_v = not (mm.group(2).startswith("ERR") or mm.group(2).startswith("PANIC"))
+                    R.count("%s:%s" % (kd, "vec-answered" if ok_v else "vec-failed"))
+                    if ok_v:
+                        accepted += 1
+                    if mm.group(1) != mm.group(2):
+                        divergences += 1
             if kd in ("par", "dist"):
                 programs += 1
                 p = split_par(g)
